@@ -21,6 +21,7 @@ import (
 	"os"
 	"path"
 	"path/filepath"
+	"strings"
 
 	"github.com/notaryproject/notation-go/dir"
 	"github.com/notaryproject/notation-go/internal/file"
@@ -49,6 +50,9 @@ func NewCLIManager(pluginFS dir.SysFS) *CLIManager {
 //
 // If the plugin is not found, the error is of type os.ErrNotExist.
 func (m *CLIManager) Get(ctx context.Context, name string) (plugin.Plugin, error) {
+	if err := validatePluginName(name); err != nil {
+		return nil, err
+	}
 	pluginPath := path.Join(name, binName(name))
 	path, err := m.pluginFS.SysPath(pluginPath)
 	if err != nil {
@@ -210,6 +214,9 @@ func (m *CLIManager) Install(ctx context.Context, installOpts CLIInstallOptions)
 // Uninstall uninstalls a plugin on the system by its name.
 // If the plugin dir does not exist, os.ErrNotExist is returned.
 func (m *CLIManager) Uninstall(ctx context.Context, name string) error {
+	if err := validatePluginName(name); err != nil {
+		return err
+	}
 	pluginDirPath, err := m.pluginFS.SysPath(name)
 	if err != nil {
 		return err
@@ -218,6 +225,15 @@ func (m *CLIManager) Uninstall(ctx context.Context, name string) error {
 		return err
 	}
 	return os.RemoveAll(pluginDirPath)
+}
+
+// validatePluginName checks that name is a single path component, so that
+// the plugin directory is always a direct child of the plugin root.
+func validatePluginName(name string) error {
+	if name == "" || name == "." || name == ".." || strings.ContainsAny(name, "/\\\x00") {
+		return fmt.Errorf("invalid plugin name %q", name)
+	}
+	return nil
 }
 
 // parsePluginFromDir checks if a dir is a valid plugin dir which contains
